@@ -143,6 +143,19 @@ CLAIMED = {
                  "repaired the dead opcode test (NOTIMPL was unreachable).",
          "note": STD_NOTE,
          "technique": "static analysis: bound guards (K4), known-bits dead-guard detection, dominance gating (K3), value provenance (K8), release on exits (K11)"},
+ "C35": {"level": "other",
+         "text": "Response encoder: each of the 21 writes into the response buffer is dominated by a capacity test covering index+size (increments since the test are added to the "
+                 "obligation; the back-patched RDLENGTH is covered by the later successful bounded encoder call); label <= 63 / name <= 255 rejections dominate emission; only "
+                 "positions a 14-bit pointer can hold are recorded for compression; negative encoder results truncate the response; the overflow path clamps and sets TC. "
+                 "Found and repaired two genuine defects (1-byte stack overflow at the root label; truncated compression pointers beyond 16 KiB). Decoding equivalence is declined.",
+         "note": STD_NOTE,
+         "technique": "static analysis: capacity guards with syntactic implication in linear normal form (K4), error propagation (K12)"},
+ "C36": {"level": "other",
+         "text": "Query builder: every write into the request buffer is capacity-guarded (one byte accepted through a re-checked argument about the sole caller's allocation via "
+                 "evdns_request_len); header words are the standard-query constants in order and the question carries the caller's name/type/class; a negative build result fails "
+                 "request_new and the built length is recorded. Search-list order and decoding equivalence are declined.",
+         "note": STD_NOTE,
+         "technique": "static analysis: capacity guards (K4), constant/template check of the header words (K6), error propagation and provenance (K12/K8)"},
 }
 
 NOT_APPLICABLE = {
